@@ -3,7 +3,7 @@ import itertools
 import json
 
 from vlib.clirun import Run, run_all, sha
-from vlib.respell import respell, to_yaml
+from vlib.respell import to_yaml_flow, respell, to_yaml
 from vlib.schemagen import SchemaGen
 
 PROPS_FILE = "Props/C13.v"
@@ -43,10 +43,10 @@ def run(ctx):
             doc = respell(sc, legacy_id=lid, legacy_defs=ldef, type_list=tl, bool_schema=bs, legacy_deps=ldep)
             runs.append(Run("r%d_%d" % (si, ci), {"in/s.json": json.dumps(doc)}, base_argv + ["in/s.json"]))
             meta.append((si, "json %s" % ((lid, ldef, tl, bs, ldep),)))
-        for yi, (style, ext) in enumerate([("block", "yaml"), ("flow", "yaml"), ("block", "yml"), ("bare", "yaml")]):
+        for yi, (style, ext) in enumerate([("block", "yaml"), ("flow", "yaml"), ("block", "yml"), ("bare", "yaml"), ("yamlflow", "yaml")]):
             for variant in (0, 1):
                 doc = respell(sc, legacy_id=bool(variant), legacy_defs=bool(variant), type_list=bool(variant))
-                text = to_yaml(doc, flow=(style == "flow"), bare_keys=(style == "bare")) + "\n"
+                text = (to_yaml_flow(doc) if style == "yamlflow" else to_yaml(doc, flow=(style == "flow"), bare_keys=(style == "bare"))) + "\n"
                 # the root type name comes from the file name: keep it s.json-like by mapping the root type
                 runs.append(Run("y%d_%d_%d" % (si, yi, variant), {"in/s.%s" % ext: text},
                                 base_argv + ["--schema-root-type", "%s=SJson" % idv, "--schema-output", "%s=-" % idv, "in/s.%s" % ext]))
